@@ -218,9 +218,23 @@ def suspender_call(I):
     ev0 = opaque(I, "ev0", methods={"wait": lambda *a: None, "set": lambda *a: None}, truth=True) if has_ev else None
     tripped0 = w.bool("tripped0")
     from pyvc.stdstubs import _lock
-    o = bare_obj(I, "SuspenderBase", RE=RE if installed else None, _ev=ev0, _tripped=tripped0, _lock=_lock(I, [], {}),
-                 _sleep=w.real("sleep"), _pre_plan=None, _post_plan=None, _sig=signal(I), _tripped_message="")
     v = w.real("value")
+    # pre-state: the real constructor's fields, then an arbitrary reachable state: the documented fields are set
+    # explicitly, every *other* field the constructor creates (hidden state a refactoring may add) is havocked among
+    # its initial value / the incoming value / some other value, so that the step contract is proved from any history
+    o = construct(I, f"{M}:SuspenderBase", signal(I), sleep=w.real("sleep"))
+    documented = {"RE": RE if installed else None, "_ev": ev0, "_tripped": tripped0}
+    for k_ in sorted(o.attrs):
+        if k_ in documented or k_ in ("_sleep", "_sig", "_pre_plan", "_post_plan", "_tripped_message", "_lock"):
+            continue
+        init = o.attrs[k_]
+        if init is None or isinstance(init, (int, float, bool)):
+            mode = w.choose(["initial", "same as incoming value", "other value"], f"hidden field {k_}")
+            if mode == "same as incoming value":
+                o.attrs[k_] = v
+            elif mode == "other value":
+                o.attrs[k_] = w.real(f"hidden_{k_}")
+    o.attrs.update(documented)
     res = catch(I, I.getattr(o, "__call__"), v)
     rp = {"replay": "suspenders.call_step"}
     if not installed:
